@@ -72,8 +72,8 @@ Print Assumptions C17_length_all_inputs_refuted.
 (* (4) Sign.  Every output sample is 0.0 or a min of quotients s / r with `not (s >= 0)` and `r < 0`.
    From three laws on the arithmetic (quotient of such a pair is "ge0", min preserves it, 0 is) every
    sample of every sweep, and of the selected vector, is ge0.  For exact rationals ge0 is `0 <= x`
-   (C17_greedy_nonneg_Q); for binary64 the laws hold with ge0 x := "x >= +0 or x is NaN" (IEEE sign rule
-   of division; not discharged in Coq), NaN arising only from NaN/overflow upstream. *)
+   (C17_greedy_nonneg_Q); for binary64 the laws hold with ge0 x := "x is NaN or has its sign bit clear"
+   and are proved below (C17_greedy_nonneg_f64). *)
 Theorem C17_greedy_nonneg :
   forall (F : Type) (zero szero : F) (add sub mul div fmin : F -> F -> F) (neg nonneg : F -> bool)
          (ge0 : F -> Prop),
